@@ -28,7 +28,7 @@ SCHEMA_SET = ["absent", "true", "named", "false"]
 FIELD_SET = ["absent", "true", "named", "false"]
 KEYS = ["ccv7s", "ccv7d"]          # nested schema keys
 FKEY = "ccv7f"
-PREFIX = {0: "CCV7APP", 1: "CCV7P1", 2: "CCV7P2"}
+PREFIX = {0: "CCV7app", 1: "CCV7p1x", 2: "CCV7P2"}        # named prefixes are used as written (mixed case included)
 FNAMED = "CCV7NAMED"
 
 KINDS = {
@@ -74,6 +74,27 @@ def build(cc, ssets, fset, depth, kind, with_default):
     if style == "named-field":
         kw["name"] = DISPLAY
     field = k["mk"](cc, **kw)
+    if style == "late":
+        # the field joins its schema after the schema has built a configuration and served a document load
+        cur = root
+        for lvl in range(1, depth):
+            sub = cc.Schema(env=envarg(ssets[lvl], lvl))
+            setattr(cur, KEYS[lvl - 1], sub)
+            cur = sub
+        root.witness = cc.IntField(default=1, env=False)
+        saved = {n: os.environ.pop(n) for n in list(os.environ) if "CCV7" in n}
+        try:
+            early = root()
+            doc = {"witness": 2}
+            node = doc
+            for k in KEYS[: depth - 1]:
+                node[k] = {}
+                node = node[k]
+            early.loads(json.dumps(doc), "json")
+        finally:
+            os.environ.update(saved)
+        setattr(cur, FKEY, field)
+        return root, field
     if style == "item":
         root[".".join(KEYS[: depth - 1] + [FKEY])] = field
     else:
@@ -126,7 +147,7 @@ def ref_name(ssets, fset, depth):
 
 def plausible_names(depth):
     F = FKEY.upper()
-    parts = [PREFIX[0], PREFIX[1], PREFIX[2], KEYS[0].upper(), KEYS[1].upper()]
+    parts = [PREFIX[0], PREFIX[1], PREFIX[2], KEYS[0].upper(), KEYS[1].upper(), PREFIX[0].upper(), PREFIX[1].upper()]
     names = {F, FNAMED, "_" + F, FKEY, DISPLAY.upper(), DISPLAY, DISPLAY.upper().replace(" ", "_")}
     for pre in (PREFIX[0], PREFIX[0] + "_" + KEYS[0].upper(), PREFIX[1]):
         names.add(pre + "_" + DISPLAY.upper())
@@ -191,6 +212,10 @@ def jobs(tier):
             ssets = [root] + ["absent"] * (depth - 1)
             for style in ("auto", "item"):
                 out.append({"name": "%s/d%d/%s" % (style, depth, "-".join(ssets)), "depth": depth, "ssets": ssets, "kinds": few, "tier": tier, "style": style})
+    for depth in (1, 2, 3):
+        for root in SCHEMA_SET:
+            ssets = [root] + ["absent"] * (depth - 1)
+            out.append({"name": "late/d%d/%s" % (depth, "-".join(ssets)), "depth": depth, "ssets": ssets, "kinds": few, "tier": tier, "style": "late"})
     for depth in (1, 2):
         for ssets in itertools.product(SCHEMA_SET, repeat=depth):
             out.append({"name": "named-field/d%d/%s" % (depth, "-".join(ssets)), "depth": depth, "ssets": list(ssets), "kinds": few, "tier": tier, "style": "named-field"})
